@@ -70,7 +70,7 @@ fn run_c42(args: &Args) -> i32 {
     open_stream.shard = 40;
     let plant = std::env::var("HX_C42_PLANT").unwrap_or_default();
     let mut rng = Rng::new(args.seed);
-    let nhist = args.vol(12, 40);
+    let nhist = args.vol(12, 80);
     for h in 0..nhist {
         let mut r = rng.fork();
         let stable = r.chance(1, 2);
